@@ -1,7 +1,10 @@
 (* C10 — Semaphore and CapacityLimiter: permits are conserved and never over-granted.
    This file contains only statements closed by `exact` and their Print Assumptions.
    Part 1 speaks about the Semaphore machine (prims/Sem.v); after the second Require Import the short names
-   (st, step, reach, ...) denote the CapacityLimiter machine (prims/Limiter.v). *)
+   (st, step, reach, ...) denote the CapacityLimiter machine (prims/Limiter.v).
+   In part 2 `tainted s = false` excludes exactly the histories in which release_on_behalf_of(b) was called
+   before b's acquire call returned (O2); duplicate borrowers among concurrent acquire_on_behalf_of calls are
+   inside every statement (F16: the second caller is refused, C10_lim_waiting_borrower_rejected). *)
 From AV Require Import Base C10Defs C10Lib Sem SemProofs SemThms.
 
 (* ===================================== Semaphore ===================================== *)
@@ -158,8 +161,7 @@ Theorem C10_lim_held_tracks_returns : forall s o s' r, step s o = (s', r) ->
 Proof. exact lim_held_tracks_returns. Qed.
 Print Assumptions C10_lim_held_tracks_returns.
 
-Theorem C10_lim_fifo_queue_in_arrival_order : forall v s, reach v s -> tainted s = false ->
-  subseq (queue s) (arrivals s).
+Theorem C10_lim_fifo_queue_in_arrival_order : forall v s, reach v s -> subseq (queue s) (arrivals s).
 Proof. exact lim_queue_in_arrival_order. Qed.
 Print Assumptions C10_lim_fifo_queue_in_arrival_order.
 
@@ -182,10 +184,45 @@ Theorem C10_lim_fifo_set_total_serves_prefix : forall s x,
 Proof. exact lim_set_total_serves_prefix. Qed.
 Print Assumptions C10_lim_fifo_set_total_serves_prefix.
 
-Theorem C10_lim_no_free_token_with_waiters : forall v s, reach v s -> tainted s = false ->
+Theorem C10_lim_no_free_token_with_waiters : forall v s, reach v s ->
   queue s <> [] -> free (borrowers s) (total s) = false.
 Proof. exact lim_no_free_token_with_waiters. Qed.
 Print Assumptions C10_lim_no_free_token_with_waiters.
+
+Theorem C10_lim_wait_queue_keys_distinct : forall v s, reach v s ->
+  NoDup (keys (queue s)) /\
+  (forall b, In b (keys (queue s)) -> ~ In b (borrowers s)) /\
+  (tainted s = false -> forall t1 t2 b, inprog s t1 b -> inprog s t2 b -> t1 = t2).
+Proof. exact lim_wait_queue_keys_distinct. Qed.
+Print Assumptions C10_lim_wait_queue_keys_distinct.
+
+Theorem C10_lim_waiting_borrower_rejected : forall s t b,
+  phase_of s t = Idle -> In b (keys (queue s)) -> ~ In b (borrowers s) ->
+  step s (AcqOn t b) = (s, RRuntime) /\ step s (AcqOnNowait t b) = (s, RWouldBlock).
+Proof. exact lim_waiting_borrower_rejected. Qed.
+Print Assumptions C10_lim_waiting_borrower_rejected.
+
+Theorem C10_lim_second_waiter_rejected : forall v s t u b e, reach v s -> tainted s = false ->
+  phase_of s u = Waiting b e -> evset s e = false -> phase_of s t = Idle ->
+  step s (AcqOn t b) = (s, RRuntime).
+Proof. exact lim_second_waiter_rejected. Qed.
+Print Assumptions C10_lim_second_waiter_rejected.
+
+Theorem C10_lim_no_lost_waiter : forall v s t b e, reach v s -> tainted s = false ->
+  phase_of s t = Waiting b e -> evset s e = false ->
+  In (b, e) (queue s) /\ free (borrowers s) (total s) = false.
+Proof. exact lim_no_lost_waiter. Qed.
+Print Assumptions C10_lim_no_lost_waiter.
+
+Theorem C10_lim_duplicate_waiter_refuted_pinned :
+  (exists ops, let s := final step_f16_pinned (init (Some 1)) ops in
+     phase_of s 2 = Waiting 11 1 /\ evset s 1 = false /\ fcanc s 2 = false /\ mustc s 2 = false /\
+     queue s = [] /\ borrowers s = [] /\ free (borrowers s) (total s) = true /\ phase_of s 1 = Idle) /\
+  (exists ops, let s := final step_f16_pinned (init (Some 1)) ops in
+     phase_of s 1 = Waiting 11 0 /\ evset s 0 = false /\ phase_of s 2 = Waiting 11 1 /\ evset s 1 = true /\
+     arrivals s = [(11, 0); (11, 1)] /\ queue s = [] /\ borrowers s = [11]).
+Proof. exact lim_duplicate_waiter_refuted_pinned. Qed.
+Print Assumptions C10_lim_duplicate_waiter_refuted_pinned.
 
 Theorem C10_lim_cancel_conserves_before_grant : forall v s t b e, reach v s -> tainted s = false ->
   phase_of s t = Waiting b e -> evset s e = false -> fcanc s t = true ->
